@@ -1169,12 +1169,45 @@ pub fn meta(args: &Args) -> Value {
     })
 }
 
+/// Hand-written pairs: the macro binds a *function* (a `let` of a lambda, with and without a declared
+/// type, one or two parameters) and the splice sits inside that function's body, so the binder is not
+/// in scope there (`let` is not recursive); the user's code calls a function of the same name
+/// (a global function, a local function value).
+fn function_binder_cases() -> Vec<HCase> {
+    let mut v = vec![];
+    let binders: [(&str, &str, &str); 4] = [
+        ("typed", "let B:(float)->float = |n| { if (n > 0.0) { $x } else { 0.0 } }\n     B(1.0)", ""),
+        ("untyped", "let B = |n| { if (n > 0.0) { $x } else { 0.0 } }\n     B(1.0)", ""),
+        ("typed-two-parameters", "let B:(float,float)->float = |n, k| { if (n > k) { $x } else { 0.0 } }\n     B(1.0, 0.0)", ""),
+        ("typed-after-statement", "let zq_w = 3.0\n     let B:(float)->float = |n| { $x + n * 0.0 }\n     B(zq_w)", ""),
+    ];
+    let users: [(&str, &str, &str); 2] = [
+        ("global-function", "fn g(v){\n  v + 7.0\n}\n", "fn dsp(){\n  m!(`g(0.0))\n}\n"),
+        ("local-function-value", "", "fn dsp(){\n  let g = |v| v + 7.0\n  m!(`g(0.0))\n}\n"),
+    ];
+    for (btag, body, _) in binders {
+        for (utag, defs, dsp) in users {
+            let text = |b: &str| format!("#stage(macro)\nfn m(x){{\n  `{{ {}\n  }}\n}}\n#stage(main)\n{defs}{dsp}", body.replace('B', b));
+            v.push(HCase {
+                colliding: text("g"),
+                renamed: text("zq_h"),
+                expected: 7.0,
+                n: 2,
+                class: format!("let-bound-function-{btag}/in-bound-expression/macro-captures-user"),
+                tags: Tags { form: format!("let-bound-function-{btag}"), position: "in-bound-expression".into(), direction: "macro-captures-user".into(), name_source: "user".into(), name: "g".into(), user_entity: utag.into(), ..Default::default() },
+            });
+        }
+    }
+    v
+}
+
 pub fn run(args: &Args, out: &mut Out) {
     let q = (args.q(Q_TUPLE), args.q(Q_IF));
     let all = combos(q.0);
+    let extra = function_binder_cases();
     let total = all.len() + args.cases(300, 10_000);
     out.max_samples = 2;
-    drive(args, out, total, |idx, rng| Some(generate_case(idx, rng, &all, q)), exec);
+    drive(args, out, total + extra.len(), |idx, rng| if idx >= total { extra.get(idx - total).cloned() } else { Some(generate_case(idx, rng, &all, q)) }, exec);
 }
 
 pub fn replay(_args: &Args, out: &mut Out, case: &Value) {
